@@ -201,6 +201,9 @@ class TriangleBoundary(BoundaryDomain):
         x_close_to_0 = self._bary_coords_close_to_0_or_1(bary_x, bary_y)
         y_close_to_0 = self._bary_coords_close_to_0_or_1(bary_y, bary_x)
         sum_close_to_1 = torch.isclose(bary_x + bary_y, torch.tensor(1.0))
+        # only the part of this line between the two corners belongs to the boundary
+        x_between_0_1 = torch.logical_and(-1e-5 <= bary_x, bary_x <= 1 + 1e-5)
+        sum_close_to_1 = torch.logical_and(sum_close_to_1, x_between_0_1)
         close_to_0 = torch.logical_or(x_close_to_0, y_close_to_0)
         return torch.logical_or(close_to_0, sum_close_to_1).reshape(-1, 1)
 
